@@ -936,3 +936,12 @@ VARIANTS['C08'] += [
       [('dashlive/mpeg/dash/timing.py', "        if self.elapsedTime.total_seconds() < self.timeShiftBufferDepth:\n            self.timeShiftBufferDepth = int(self.elapsedTime.total_seconds())", "        elapsed_secs = self.elapsedTime.total_seconds()\n        if elapsed_secs < self.timeShiftBufferDepth:\n            self.timeShiftBufferDepth = int(elapsed_secs)"),
        ('dashlive/mpeg/dash/timing.py', "            num_refreshes = int(\n                self.elapsedTime.total_seconds() // self.minimumUpdatePeriod)", "            num_refreshes = int(elapsed_secs // self.minimumUpdatePeriod)")], None),
 ]
+
+VARIANTS['C17'] += [
+    V('unused adaptation sets collected by track id, deleted by primary key',
+      [('dashlive/server/requesthandler/multi_period_streams.py', "    for trk in period.adaptation_sets:\n        unused_tracks.add(trk.pk)\n", "    for trk in period.adaptation_sets:\n        unused_tracks.add(trk.track_id)\n"),
+       ('dashlive/server/requesthandler/multi_period_streams.py', "            unused_tracks.remove(adp.pk)\n", "            unused_tracks.remove(adp.track_id)\n")],
+      'R17.7', 'process_period'),
+    V('neutral: unused adaptation sets collected with a set comprehension',
+      [('dashlive/server/requesthandler/multi_period_streams.py', "    unused_tracks: set[int] = set()\n    for trk in period.adaptation_sets:\n        unused_tracks.add(trk.pk)\n", "    unused_tracks: set[int] = {trk.pk for trk in period.adaptation_sets}\n")], None),
+]
